@@ -856,12 +856,60 @@ func instrIndex(in ssa.Instruction) int {
 	return -1
 }
 
+type retEdge struct {
+	cond    string
+	st      *State
+	results []Val
+	pos     token.Pos
+}
+
+// execReturn records the exit; all exits are merged and the postconditions are
+// checked once on the merged exit state (finishReturns).
 func (fg *FuncGen) execReturn(x *ssa.Return) {
 	var results []Val
 	for _, r := range x.Results {
-		results = append(results, fg.val(r))
+		v := fg.val(r)
+		if v.Loc != nil {
+			v = Val{T: fg.reify(v.Loc), Typ: v.Typ}
+		}
+		results = append(results, v)
 	}
-	st := fg.cur
+	fg.returns = append(fg.returns, retEdge{cond: fg.reach, st: fg.cur, results: results, pos: x.Pos()})
+}
+
+func (fg *FuncGen) finishReturns() {
+	if len(fg.returns) == 0 {
+		return
+	}
+	var edges []inEdge
+	var conds []string
+	for _, r := range fg.returns {
+		edges = append(edges, inEdge{cond: r.cond, st: r.st})
+		conds = append(conds, r.cond)
+	}
+	st := fg.merge(edges)
+	fg.cur = st
+	fg.reach = fg.namedBool("exit", or(conds...))
+	var results []Val
+	for i := range fg.returns[0].results {
+		t := fg.returns[0].results[i].Typ
+		same := true
+		for _, r := range fg.returns[1:] {
+			if r.results[i].T != fg.returns[0].results[i].T {
+				same = false
+			}
+		}
+		if same {
+			results = append(results, fg.returns[0].results[i])
+			continue
+		}
+		v := fg.freshValNoFacts(fmt.Sprintf("ret%d", i), t)
+		for _, r := range fg.returns {
+			fg.assume(implies(r.cond, fmt.Sprintf("(= %s %s)", v.T, r.results[i].T)))
+		}
+		results = append(results, v)
+	}
+	fg.lastPos = fg.fn.Pos()
 	if fg.ct != nil {
 		env := fg.ownEnv(st, fg.entry)
 		env.results = results
